@@ -57,13 +57,20 @@ func c14(c *ctx) {
 		cp.Add(&corpus.Job{Pkg: pkg, Text: cs.text, Opts: v.opts, NoAST: v.noast, RuleNames: ruleNames(g), HasActions: g.Count(gram.KAction) > 0})
 		ins := tractable(g, "R0", gram.Inputs(r, g, "R0", 6, alpha))
 		if len(deep) > 0 {
-			ins = tractable(g, "R0", deep[:min(4, len(deep))])
-			for _, in := range ins {
+			// nesting a little beyond 64 levels is what is wanted here; the deepest inputs of the generator (hundreds
+			// of levels) cost memory quadratic in the depth with memoisation, times 32 goroutines, times the race
+			// detector's shadow memory — a thorough run went over the 9 GB cap of a child with them (a false alarm)
+			var pick []string
+			for _, in := range deep {
 				it := ref.New(g, in)
 				it.Limit = 400000
-				if ok, _ := it.Parse("R0"); ok {
+				if ok, _ := it.Parse("R0"); ok && !it.Over && it.MaxDepth >= 70 && it.MaxDepth <= 150 && len(pick) < 4 {
+					pick = append(pick, in)
 					c.run.Max("deepest_tree_printed_concurrently_levels", it.MaxDepth)
 				}
+			}
+			if len(pick) > 0 {
+				ins = pick
 			}
 		}
 		// one long accepted input (the matched prefix is longer than 64 runes) for the owners that break their own
